@@ -89,8 +89,8 @@ func p07TemplateList() []string {
 		"takes2(two())",
 		"switch b {\ncase !c:\n\tprint(\"x\")\n\tif d {\n\t\tprint(\"y\")\n\t}\n}",
 		"switch b {\ncase c, !d:\n\t_ = *x\n\tfallthrough\ncase true:\n\t_ = *x\ndefault:\n}",
-		"outer:\n\tfor {\n\t\tfor {\n\t\t\tif b {\n\t\t\t\tcontinue outer\n\t\t\t}\n\t\t\tbreak outer\n\t\t}\n\t}",
-		"if b {\n\tgoto end\n}\n_ = *x\nend:\n\tprint(\"e\")",
+		"OUTERL:\n\tfor {\n\t\tfor {\n\t\t\tif b {\n\t\t\t\tcontinue OUTERL\n\t\t\t}\n\t\t\tbreak OUTERL\n\t\t}\n\t}",
+		"if b {\n\tgoto ENDL\n}\n_ = *x\nENDL:\n\tprint(\"e\")",
 		"select {\ncase v := <-gch:\n\t_ = *v\ndefault:\n}",
 		"select {\ncase gch <- x:\ncase v, ok := <-gch:\n\tif ok {\n\t\t_ = *v\n\t}\n}",
 		"switch v := i.(type) {\ncase *int:\n\t_ = *v\ncase nil:\ncase shape:\n\t_ = *v.area()\n}",
@@ -142,7 +142,9 @@ func Harness_P07() {
 	if ndParam("PAIRS", 0) == 1 {
 		k2 := ndChoice("template2", len(p07Templates))
 		// two templates may declare the same name or label: keep each in its own block
-		body = p07Block(strings.ReplaceAll(p07Templates[k1], "end", "end1")) + p07Block(strings.ReplaceAll(strings.ReplaceAll(p07Templates[k2], "end", "end2"), "outer", "outer2"))
+		// labels are function-scoped: the second copy gets its own
+		second := strings.ReplaceAll(strings.ReplaceAll(p07Templates[k2], "OUTERL", "OUTERM"), "ENDL", "ENDM")
+		body = p07Block(p07Templates[k1]) + p07Block(second)
 	}
 	src := p07Prelude + "func T(s []*int, x *int, b, c, d bool, l *list, i any) {\n" + body + "}\n"
 	ndObserveStr("source", src)
